@@ -201,7 +201,7 @@ theorem runItem_H (conv : Conv) (s : Schema) (hs : schemaOK s = true) :
       evalItem conv s m i = .ok m' →
       runItem st i = .ok (withTop st m' below (st.handlers ++ handlersOfItem conv s i))
   | .kv k v p, st, m, m', below, _, hst, hsch, hconv, hb, hev => by
-    obtain ⟨sch, priv, hd, stk, pk, cv⟩ := st
+    obtain ⟨sch, priv, hd, stk, pk, cv, bs⟩ := st
     simp only at hst hsch hconv
     subst hst hsch hconv
     rw [evalItem] at hev
@@ -209,7 +209,7 @@ theorem runItem_H (conv : Conv) (s : Schema) (hs : schemaOK s = true) :
     unfold lsValue
     simp only [hev, Except.map, withTop, List.append_nil]
   | .sect ty nm items, st, m, m', below, hcan, hst, hsch, hconv, hb, hev => by
-    obtain ⟨sch, priv, hd, stk, pk, cv⟩ := st
+    obtain ⟨sch, priv, hd, stk, pk, cv, bs⟩ := st
     simp only at hst hsch hconv
     subst hst hsch hconv
     obtain ⟨hname, hcsub, _⟩ := tyCanon_sect_inv sch ty nm items [] hcan
@@ -245,7 +245,7 @@ theorem runItem_H (conv : Conv) (s : Schema) (hs : schemaOK s = true) :
                 simp only at hev
                 have ih := runItems_H cv sch hs items
                   { schema := sch, privateSchema := priv, handlers := hd, stack := newMatcher t nm none :: m :: below,
-                    pkgs := pk, conv := cv } (newMatcher t nm none) child (m :: below)
+                    pkgs := pk, conv := cv, bagSchema := bs } (newMatcher t nm none) child (m :: below)
                   hcsub rfl rfl rfl rfl he
                 rw [ih]
                 simp only
